@@ -64,6 +64,9 @@ def gen_cases(tier, seed):
                 feed.append([late, rng.randrange(1, 10000), True])
                 will_match = True       # the real wait is ended by the late frame, not by real time
             ops.append({"op": "wait", "filter": want, "feed": feed, "timeout": 5 if will_match else 0.12})
+            if will_match and len(ops) % 4 == 1:
+                # a second caller waits at the same time, for anything or for the same code
+                ops[-1]["filter2"] = -1 if len(cases) % 2 else want
             ops.append({"op": "frame", "d": frame(rng), "ts": 7})
         cases.append({"nid": 3, "ops": ops, "ncb": 1})
     return cases
